@@ -11,6 +11,7 @@ Each generator re-parses the source text of one statement, rewrites it and retur
   notin       not (a in b) <-> a not in b ;  not a == b <-> a != b
   chain       a <= b <= c      ->  a <= b and b <= c          (b a plain name / attribute)
   comment     a comment line inserted in front of the statement (line shift only)
+  swapadj     two adjacent, call-free assignments to plain names that do not read or write each other's names, swapped
 
 None of them changes what the function computes (operands of the repo's arithmetic have no side effects; the
 product/compare operands are numbers or arrays).
@@ -190,3 +191,39 @@ def twins_of(src, fn):
                 continue
             yield s.lineno, kind, pos, out, "%s: %s" % (kind, first.strip()[:70])
         yield s.lineno, "comment", pos, indent + "# reviewed\n" + text, "comment before: %s" % first.strip()[:60]
+    for m in swaps_of(src, fn):
+        yield m
+
+
+def _names(e, ctx=None):
+    return {n.id for n in ast.walk(e) if isinstance(n, ast.Name) and (ctx is None or isinstance(n.ctx, ctx))}
+
+
+def _simple_assign(s):
+    return isinstance(s, ast.Assign) and all(isinstance(t, ast.Name) for t in s.targets) and not any(isinstance(x, (ast.Call, ast.Await, ast.Yield, ast.NamedExpr)) for x in ast.walk(s.value))
+
+
+def swaps_of(src, fn):
+    lines = src.split("\n")
+    blocks = []
+    for n in ast.walk(fn):
+        if n is not fn and isinstance(n, (ast.FunctionDef, ast.AsyncFunctionDef, ast.ClassDef, ast.Lambda)):
+            continue
+        for f in ("body", "orelse", "finalbody"):
+            b = getattr(n, f, None)
+            if isinstance(b, list) and b and isinstance(b[0], ast.stmt):
+                blocks.append(b)
+    for b in blocks:
+        for s1, s2 in zip(b, b[1:]):
+            if not (_simple_assign(s1) and _simple_assign(s2)):
+                continue
+            w1, w2 = _names(s1, ast.Store), _names(s2, ast.Store)
+            if w1 & _names(s2) or w2 & _names(s1):
+                continue
+            if s1.end_lineno >= s2.lineno or lines[s1.lineno - 1][: s1.col_offset].strip():
+                continue
+            t1 = "\n".join(lines[s1.lineno - 1 : s1.end_lineno])
+            t2 = "\n".join(lines[s2.lineno - 1 : s2.end_lineno])
+            between = "\n".join(lines[s1.end_lineno : s2.lineno - 1])
+            pos = (s1.lineno, 0, s2.end_lineno, len(lines[s2.end_lineno - 1]))
+            yield s1.lineno, "swapadj", pos, t2 + "\n" + (between + "\n" if between.strip() else "") + t1, "swapadj: %s <-> %s" % (t1.strip()[:40], t2.strip()[:40])
